@@ -148,9 +148,35 @@ def aliasesOf (kv : List (Val × Val)) : List String :=
   | some v => (asStrList? v).getD []
   | none => []
 
-mutual
+/-- `[p(s) for s in xs]` threading the parser state -/
+def parseListWith (p : Val → St → R (Schema × St)) : List Val → St → R (List Schema × St)
+  | [], st => .ok ([], st)
+  | x :: rest, st => do
+      let (s, st) ← p x st
+      let (ss, st) ← parseListWith p rest st
+      pure (s :: ss, st)
+
+/-- `parse_field` over the field list; `p type state default` parses the field's type -/
+def parseFieldsWith (p : Val → St → Option Val → R (Schema × St)) : List Val → St → R (List Field × St)
+  | [], st => .ok ([], st)
+  | .dict kv :: rest, st => do
+      let aliases ← match dictGetV kv "aliases" with
+        | none => pure []
+        | some (.list xs) => pure (xs.filterMap fun v => match v with | .str s => some s | _ => none)
+        | some _ => throw .parse
+      let dflt := dictGetV kv "default"
+      let name ← match dictGetV kv "name" with
+        | some (.str n) => pure n
+        | some _ => throw .other
+        | none => throw .index
+      let ty ← match dictGetV kv "type" with | some v => pure v | none => throw .index
+      let (s, st) ← p ty st dflt
+      let (fs, st) ← parseFieldsWith p rest st
+      pure (.mk name s dflt aliases :: fs, st)
+  | _ :: _, _ => .error .type
+
 /-- `_parse_schema(schema, namespace, expand=False, _, names, named_schemas, default, ignore)`.
-    `dflt = none` is `NO_DEFAULT`. -/
+    `dflt = none` is `NO_DEFAULT`. The fuel bounds the nesting depth only. -/
 def parse (fuel : Nat) (raw : Val) (ns : String) (st : St) (dflt : Option Val) (ign : Bool) :
     R (Schema × St) :=
   match fuel with
@@ -158,7 +184,7 @@ def parse (fuel : Nat) (raw : Val) (ns : String) (st : St) (dflt : Option Val) (
   | fuel+1 =>
   match raw with
   | .list xs => do
-      let (bs, st) ← parseList fuel xs ns st ign
+      let (bs, st) ← parseListWith (fun x st => parse fuel x ns st none ign) xs st
       match dflt with
       | some d =>
         if !(bs.any (defaultMatches d)) && !ign then throw .parse
@@ -231,7 +257,7 @@ def parse (fuel : Nat) (raw : Val) (ns : String) (st : St) (dflt : Option Val) (
         -- registered before the fields are parsed, so that the record can refer to itself
         let st := { st with env := st.env.set full (.record full [] aliases) }
         let fieldsV := match dictGetV kv "fields" with | some (.list xs) => xs | _ => []
-        let (fs, st) ← parseFields fuel fieldsV ns' st ign
+        let (fs, st) ← parseFieldsWith (fun ty st d => parse fuel ty ns' st d ign) fieldsV st
         let s := Schema.record full fs aliases
         pure (s, { st with env := st.env.set full s })
       else
@@ -254,43 +280,6 @@ def parse (fuel : Nat) (raw : Val) (ns : String) (st : St) (dflt : Option Val) (
         if (st.env.get? full).isNone then throw .unknownType
         else pure (.ref full, st)
   | _ => .error .type
-
-def parseList (fuel : Nat) (xs : List Val) (ns : String) (st : St) (ign : Bool) :
-    R (List Schema × St) :=
-  match fuel with
-  | 0 => .error .fuel
-  | fuel+1 =>
-  match xs with
-  | [] => .ok ([], st)
-  | x :: rest => do
-      let (s, st) ← parse fuel x ns st none ign
-      let (ss, st) ← parseList fuel rest ns st ign
-      pure (s :: ss, st)
-
-/-- `parse_field` over the field list -/
-def parseFields (fuel : Nat) (xs : List Val) (ns : String) (st : St) (ign : Bool) :
-    R (List Field × St) :=
-  match fuel with
-  | 0 => .error .fuel
-  | fuel+1 =>
-  match xs with
-  | [] => .ok ([], st)
-  | .dict kv :: rest => do
-      let aliases ← match dictGetV kv "aliases" with
-        | none => pure []
-        | some (.list xs) => pure (xs.filterMap fun v => match v with | .str s => some s | _ => none)
-        | some _ => throw .parse
-      let dflt := dictGetV kv "default"
-      let name ← match dictGetV kv "name" with
-        | some (.str n) => pure n
-        | some _ => throw .other
-        | none => throw .index
-      let ty ← match dictGetV kv "type" with | some v => pure v | none => throw .index
-      let (s, st) ← parse fuel ty ns st dflt ign
-      let (fs, st) ← parseFields fuel rest ns st ign
-      pure (.mk name s dflt aliases :: fs, st)
-  | _ :: _ => .error .type
-end
 
 /-- `parse_schema(schema, named_schemas)` for a raw (unparsed) schema: a top-level list is parsed
     element by element, each with a fresh `names` set. -/
